@@ -20,12 +20,12 @@ theorem C11_swap_ok_src (s : Sys) (i j : Nat) (h : Inv s.buf) (hi : i < s.buf.si
   | (have h0 := C11_swap_ok s i j h hi hj; unfold Refines at h0 ⊢; rw [tie_swap _ _ s h]; exact h0)
 
 theorem C11_swap_panics_i_src (s : Sys) (i j : Nat) (hi : ¬ i < s.buf.size) :
-    Gen.swap i j s = (.error (.doc "swap_i"), s) := by
-  rw [tie_swap_all]; exact C11_swap_panics_i s i j hi
+    Gen.swap i j s = (.error (.doc "swap_i"), s) :=
+  gen_swap_panics_i s i j hi
 
 theorem C11_swap_panics_j_src (s : Sys) (i j : Nat) (hi : i < s.buf.size) (hj : ¬ j < s.buf.size) :
-    Gen.swap i j s = (.error (.doc "swap_j"), s) := by
-  rw [tie_swap_all]; exact C11_swap_panics_j s i j hi hj
+    Gen.swap i j s = (.error (.doc "swap_j"), s) :=
+  gen_swap_panics_j s i j hi hj
 
 theorem C11_range_ok_src (sb eb : Bound) (s : Sys) (hsb : sb.val < W) (heb : eb.val < W)
     (he : eb.endNat s.buf.size ≤ s.buf.size) (hs : sb.startNat ≤ eb.endNat s.buf.size)
